@@ -47,10 +47,12 @@ type model struct {
 	complete   map[uint32]bool       // request complete and legal: must be dispatched
 	malformed  map[uint32]bool       // the header block being sent on the stream lacks the pseudo-headers
 	srvSent    func(id uint32) int64 // DATA bytes the server has sent on a stream (they consumed its send window)
+	zombies    func() int            // streams that are closed for the peer while their handler is still running
+	ever       map[uint32]bool       // the request was complete and legal at some point (it may have been dispatched then)
 }
 
 func newModel(maxStreams int, initWin int64) *model {
-	return &model{st: map[uint32]mState{}, window: map[uint32]int64{}, initWin: initWin, maxStreams: maxStreams, legal: true, complete: map[uint32]bool{}, malformed: map[uint32]bool{}}
+	return &model{st: map[uint32]mState{}, window: map[uint32]int64{}, initWin: initWin, maxStreams: maxStreams, legal: true, complete: map[uint32]bool{}, malformed: map[uint32]bool{}, ever: map[uint32]bool{}}
 }
 
 func (m *model) state(id uint32) mState {
@@ -136,6 +138,11 @@ func (m *model) allowed(op *Op, id uint32) allowSet {
 			}
 			if m.open >= m.maxStreams {
 				return allowSet{SE: []uint32{7, cProtocol}, CE: []uint32{7, cProtocol}, Why: "§5.1.2: over SETTINGS_MAX_CONCURRENT_STREAMS", Next: mClosedSrvRST}
+			}
+			if m.zombies != nil && m.open+m.zombies() >= m.maxStreams {
+				// streams the peer has reset keep their slot while their handler is still running (documented: it is what
+				// bounds a rapid-reset flood); the server may count them or not
+				return allowSet{OK: true, SE: []uint32{7}, Why: "§5.1.2: at the limit if reset streams with a running handler are counted", Next: next}
 			}
 			return ok("§5.1: HEADERS opens an idle stream", next)
 		case "priority":
@@ -339,11 +346,13 @@ func (m *model) apply(op *Op, id uint32, a allowSet, observed string) {
 	case mOpenHdr, mHcrHdr, mTrailerHdr:
 		m.blockOn = id
 	default:
-		if m.blockOn == id {
+		// a header block on a stream the server has reset stays open until its END_HEADERS like any other
+		if m.blockOn == id && !((isHdr || op.Kind == "continuation") && op.NoEndHdrs) {
 			m.blockOn = 0
 		}
 	}
 	if a.Next == mHcr && prev != mHcr && a.OK {
+		m.ever[id] = true
 		m.complete[id] = true
 	}
 }
@@ -362,7 +371,9 @@ func genC08(r *RNG, avoid bool) *SrvPlan {
 	mcs := Pick(r, 2, 4, 16)
 	p.Srv = SrvCfg{MaxConcurrentStreams: mcs, PingInterval: -1, MaxRequestBodySize: 1 << 20}
 	p.Peer = PeerCfg{InitialWindow: -1, MaxFrameSize: -1, HeaderTableSize: -1, AutoWindow: true, ConnWindowBoost: 1 << 20}
-	p.GateMode = Pick(r, "open", "open", "sched")
+	// "hold": handlers stay in their gates until the walk is over, so that frames arrive for streams whose handler is
+	// still running (after the peer's own RST_STREAM in particular)
+	p.GateMode = Pick(r, "open", "open", "sched", "walk-hold")
 	n := 3 + r.Intn(12)
 	var used []int // ids touched so far
 	next := 1
@@ -516,6 +527,17 @@ func RunC08(plan *SrvPlan, tape *Tape, searchSeed uint64) *RunResult {
 			return ps.RecvBytes
 		}
 		return 0
+	}
+	m.zombies = func() int {
+		n := 0
+		for rid, e := range w.Entries {
+			if rid >= 0 && e > w.Exits[rid] {
+				if st := m.state(uint32(rid)); st == mClosedPeer || st == mClosedSrvRST {
+					n++
+				}
+			}
+		}
+		return n
 	}
 	sim.RunPhase(w, 0, false)
 	rows := map[string]bool{}
@@ -671,7 +693,7 @@ func RunC08(plan *SrvPlan, tape *Tape, searchSeed uint64) *RunResult {
 }
 
 func (m *model) everComplete(id uint32) bool {
-	if m.complete[id] {
+	if m.complete[id] || m.ever[id] {
 		return true
 	}
 	s := m.state(id)
